@@ -234,19 +234,34 @@ pub fn run_case(prop: &str, case: &AnyCase) -> RunReport {
         AnyCase::Pipe(pc) if prop == "C13" => pipeprops::run_c13(pc),
         AnyCase::Pipe(pc) => {
             let out = pipesim::run_write(pc, false);
+            let mut py = false;
             let verdict = match prop {
                 "C01" => checks::check_c01(pc, &out),
                 "C02" => checks::check_c02(pc, &out),
                 "C06" => checks::check_c06(pc, &out),
                 "C07" | "C08" => checks::check_zooms(pc, &out),
-                "C09" => checks::check_c09(pc, &out),
+                "C09" => {
+                    let v = checks::check_c09(pc, &out);
+                    // a sample of the images is also judged by the Python decoder (every image in a replay)
+                    let rate: u64 = std::env::var("VERIF_PY_RATE").ok().and_then(|s| s.parse().ok()).unwrap_or(1);
+                    if v == Verdict::Pass && rate > 0 && hash_bytes(&out.image) % rate == 0 {
+                        py = true;
+                        checks::check_c09_python(pc, &out.image)
+                    } else {
+                        v
+                    }
+                }
                 _ => Verdict::Skip(format!("no oracle for {}", prop)),
             };
             let nontrivial = sections_of(pc) >= 2;
+            let mut stats = pipe_stats(pc, &out);
+            if py {
+                stats.counters.insert("images_judged_by_python_decoder".into(), 1);
+            }
             RunReport {
                 verdict,
                 nontrivial,
-                stats: pipe_stats(pc, &out),
+                stats,
             }
         }
     }
